@@ -438,7 +438,7 @@ def check_C16(ctx):
 def check_C17(ctx):
     import foreign, collections
     ctx.trusted += M1_TRUST + ["afero.BasePathFs (prefixing and cleaning of caller spellings below a named root) and archive/tar as the foreign writer are trusted"]
-    coq_props(ctx, "C17", ["C17_root_spellings", "C17_slash_spelling_empty_root", "C17_named_root_identity", "C17_demo", "C17_foreign_view", "C17_foreign_view_dotslash", "C17_foreign_view_slash", "C17_foreign_rows", "C17_foreign_listing", "C17_foreign_read", "C17_foreign_stat", "C17_foreign_walk", "C17_spellings_sanitize", "C17_spellings_resolve", "C17_root_spellings_resolve", "C17_named_base_path", "C17_mkdir_coexists", "C17_create_coexists", "C17_insert_view", "C17_foreign_simulates_twin", "C17_foreign_continuation", "C17_twin_is_the_tree", "C17_foreign_reference", "C17_twin_Good"])
+    coq_props(ctx, "C17", ["C17_root_spellings", "C17_slash_spelling_empty_root", "C17_named_root_identity", "C17_demo", "C17_foreign_view", "C17_foreign_view_dotslash", "C17_foreign_view_slash", "C17_foreign_rows", "C17_foreign_listing", "C17_foreign_read", "C17_foreign_stat", "C17_foreign_walk", "C17_spellings_sanitize", "C17_spellings_resolve", "C17_root_spellings_resolve", "C17_named_base_path", "C17_mkdir_coexists", "C17_create_coexists", "C17_insert_view", "C17_foreign_simulates_twin", "C17_foreign_continuation", "C17_twin_is_the_tree", "C17_foreign_reference", "C17_twin_Good", "C17_named_top_simulates_twin", "C17_named_top_step", "C17_named_top_view", "C17_named_top_continuation", "C17_named_top_names", "C17_named_top_vs_foreign", "C17_named_top_reference"])
     data = foreign.foreign_stream(ctx)
     tie = foreign.c17_tie(ctx, data)
     ctx.oblige("correspondence: the model's rebuild evaluates in Coq on the foreign archives", tie["ok"], tie["log"])
